@@ -40,7 +40,7 @@ def durations(D, n):
 
 
 def tasks(tier):
-    ts = [("long", D) for D in (1, 60, 900)]
+    ts = [("long", D) for D in (1, 60, 900)] + [("masked",)]
     for n in range(0, FULL_N[tier] + 1):
         for first in (SIGMA if n >= 4 else (None,)):
             ts.append(("grid", 60, n, first, "full"))
@@ -64,7 +64,13 @@ def check_case(case):
     kw = {}
     if case["tol"] is not None:
         kw["tolerance"] = case["tol"]
-    out = alpha.call(qartod.flat_line_test, alpha.nd(x), alpha.dt64(secs), case["suspect"], case["fail"], **kw)
+    data = alpha.nd(x)
+    if case.get("data") == "ma":  # masked array; each masked slot hides a finite value far from its neighbours
+        import numpy as np
+
+        miss = [v in (alpha.NAN, None) for v in x]
+        data = np.ma.MaskedArray(np.array([-9999.0 if m else float(v) for v, m in zip(x, miss)]), mask=miss)
+    out = alpha.call(qartod.flat_line_test, data, alpha.dt64(secs), case["suspect"], case["fail"], **kw)
     acceptable = R.flat_line(alpha.ref(x), D, case["suspect"], case["fail"], case["tol"] or 0)
     vs, obs = judge_flags(PROP, "flat_line_test", out, acceptable, n, extra_sig=f"n{'<3' if n < 3 else '>=3'}",
                           classify=lambda i: "point")
@@ -83,6 +89,16 @@ def run_task(task, acc):
         ds = [int(d) if float(d).is_integer() else float(d) for d in ds]
         cases = (dict(x=list(x), D=D, suspect=s, fail=f, tol=tol) for s in ds for f in ds for tol in TOL)
         run_cases(acc, cases, check_case)
+        return
+    if task[0] == "masked":
+        def gen():
+            for x in alpha.all_seqs(SIGMA, 3, 5):
+                if alpha.NAN not in x:
+                    continue
+                for s, f in ((60, 120), (120, 60), (30, 180), (180, 300)):
+                    for tol in (0.5, 2.0, 3.5):
+                        yield dict(x=list(x), D=60, suspect=s, fail=f, tol=tol, data="ma")
+        run_cases(acc, gen(), check_case)
         return
     _, D, n, first, grid = task
     if grid == "full":
